@@ -38,7 +38,7 @@ PROFILES = {
     "C07": [("sharedkey", 3), ("lifetime", 3), ("dsp", 2), ("mix", 1), ("removal2", 1), ("frames", 1), ("wide", 1)],
     "C08": [("removal2", 4), ("dsp", 3), ("cascade", 2), ("frames", 2), ("removal", 1), ("lifetime", 1), ("mix", 1)],
     "C09": [("recursion", 3), ("deeprec", 3), ("big", 1), ("mix", 1), ("wide", 1), ("huge", 0.15), ("burst", 1)],
-    "C10": [("signals", 3), ("lifetime", 1), ("frames", 1)],
+    "C10": [("signals", 3), ("lifetime", 1), ("frames", 1), ("sigrace", 1)],
     "C11": [("recursion", 2), ("mix", 1), ("lifetime", 1), ("removal", 1), ("dsp", 1), ("removal2", 1), ("cascade", 2), ("frames", 1), ("burst", 1)],
     "C12": [("recursion", 3), ("deeprec", 1), ("visibility", 2), ("mix", 1), ("ewr", 1), ("dsp", 1), ("wide", 1), ("burst", 1)],
     "C13": [("recursion", 2), ("deeprec", 1), ("appreact", 2), ("mix", 1), ("lifetime", 1), ("huge", 0.15)],
